@@ -115,28 +115,60 @@ Print Assumptions C12_append_visible.
 
 (* 2a'. header fields play no role.  Rewriting the headers of the members (mtime, mode, owner, pax records) in any
         way leaves the reader's index unchanged; in particular an array appended by kapture (TarInfo defaults,
-        mtime 0) supersedes a member of the same name packed from a real file, whatever that file's mtime. *)
+        mtime 0) supersedes a member of the same name packed from a real file, whatever that file's mtime and
+        whether it was a regular member or a hard link.  (With a symlink in the archive the "others unchanged"
+        clause would not hold: a symlink follows its target, exactly as it does in the directory form.) *)
+Definition nosym (ms : list member) : Prop := forallb (fun m => negb (is_sym m)) ms = true.
+
 Theorem C12_view_ignores_headers : forall norm (f : member -> hdr) ms,
-  mview norm (map (fun m => (m_name m, f m, snd m)) ms) = mview norm ms.
-Proof. intros norm f ms. unfold mview. rewrite strip_rehdr. reflexivity. Qed.
+  mview norm (map (fun m => (m_name m, f m, m_pay m)) ms) = mview norm ms.
+Proof. intros norm f ms. unfold mview. exact (f_equal (view norm) (flatten_rehdr norm f ms)). Qed.
 Print Assumptions C12_view_ignores_headers.
 
-Theorem C12_append_supersedes_packed : forall norm, idem norm -> forall ms n b,
+Theorem C12_append_supersedes_packed : forall norm, idem norm -> forall ms n b, nosym ms ->
   lookup (norm n) (mview norm (mappend norm ms n b)) = Some b /\
   (forall m, m <> norm n -> lookup m (mview norm (mappend norm ms n b)) = lookup m (mview norm ms)).
-Proof. intros norm I ms n b. apply mappend_visible. exact I. Qed.
+Proof. intros norm I ms n b NS. apply mappend_visible; assumption. Qed.
 Print Assumptions C12_append_supersedes_packed.
 
 (* resolving duplicate names by modification time instead (ties: later member) breaks exactly that: *)
 Lemma C12_mtime_resolution_refuted :
   exists norm, idem norm /\ exists ms n b,
-    lookup (norm n) (view_by_mtime norm (mappend norm ms n b)) <> Some b.
+    lookup (norm n) (view_by_mtime norm (ms ++ [(norm n, hdr0, b)])) <> Some b.
 Proof.
   exists (fun n => n). split; [intro; reflexivity|].
   exists [("a.jpg.kpt", {| h_mtime := 1700000000%Z; h_mode := 420%N; h_uid := 1000%N; h_pax := [] |}, "packed")],
          "a.jpg.kpt", "appended".
   vm_compute. discriminate.
 Qed.
+
+(* 2a''. links.  What a reader gets from an archive with hard-link and symlink members is [flatten] of it (extractfile
+         follows links).  Packing a folder in which several paths share an inode the way tar / tarfile.add do — first
+         path regular, later paths hard links to it — gives back the folder path by path; hence (1a-1d applied to
+         [flatten ms]) index, reads and listings of such an archive equal the directory form. *)
+Theorem C12_pack_hardlinks : forall norm (ld : ldir),
+  (forall x, In x ld -> norm (fst (fst x)) = fst (fst x)) ->
+  NoDup (map (fun x => fst (fst x)) ld) ->
+  (forall x y, In x ld -> In y ld -> snd (fst x) = snd (fst y) -> snd x = snd y) ->
+  flatten norm (pack_hl ld) = ldir_entries ld /\
+  (forall n, lookup n (mview norm (pack_hl ld)) = lookup n (ldir_entries ld)) /\
+  (forall rest n isz dsz,
+     (forall b, lookup (norm n) (ldir_entries ld) = Some b -> N.modulo (blen b) isz = 0%N) ->
+     read norm true (packed_store (flatten norm (pack_hl ld)) rest) n isz dsz =
+     read norm false (dir_store (ldir_entries ld)) n isz dsz).
+Proof.
+  intros norm ld NN ND IOK.
+  assert (F : flatten norm (pack_hl ld) = ldir_entries ld) by (apply flatten_pack_hl; assumption).
+  assert (W : wf (ldir_entries ld)).
+  { unfold wf, keys, ldir_entries. rewrite map_map. exact ND. }
+  assert (P : packs norm (ldir_entries ld) (ldir_entries ld)).
+  { apply C12_pack_packs; [exact W|]. intros n I. unfold keys, ldir_entries in I. rewrite map_map in I.
+    apply in_map_iff in I. destruct I as [x [<- Ix]]. apply NN. exact Ix. }
+  split; [exact F|]. split.
+  - intro n. unfold mview. rewrite F. apply (C12_pack_view norm _ _ P).
+  - intros rest n isz dsz H. rewrite F. apply C12_read_packed; assumption.
+Qed.
+Print Assumptions C12_pack_hardlinks.
 
 (* 2b. overwrites: under every name the LATEST version wins, for every history *)
 Theorem C12_latest_wins : forall norm base ops n,
@@ -157,6 +189,14 @@ Theorem C12_prefix_view : forall norm, idem norm -> forall base ops k,
   end.
 Proof. intros norm I base ops k. apply reader_after_kill. exact I. Qed.
 Print Assumptions C12_prefix_view.
+
+(* the same on an archive given with its headers and hard links (what is really on disk) *)
+Theorem C12_prefix_view_members : forall norm, idem norm -> forall (base : option (list member)) ops k,
+  nosym (odflt [] base) ->
+  reader norm (kill (run_appends norm true (open_append (option_map (flatten norm) base)) (firstn k ops))) =
+  match disk_members norm base (firstn k ops) with None => OpenFails | Some ms => Opened (mview norm ms) end.
+Proof. intros norm I base ops k NS. apply reader_after_kill_members; assumption. Qed.
+Print Assumptions C12_prefix_view_members.
 
 (* closing adds nothing that a reader can see: not closing loses nothing *)
 Theorem C12_close_adds_nothing : forall norm, idem norm -> forall base ops,
@@ -263,6 +303,10 @@ Example C12_example :
                           (firstn 2 [("./a.jpg.kpt", "BBBB"); ("d.kpt", "D"); ("a.jpg.kpt", "CCCC")])))
     = Opened [("sub dir/b c.jpg.kpt", ""); ("notes.md", "x"); ("a.jpg.kpt", "BBBB"); ("d.kpt", "D")] /\
   reader ex_norm (kill (run_appends ex_norm true (open_append None) (firstn 0 [("d.kpt", "D")]))) = OpenFails /\
+  mview ex_norm [("./a.jpg.kpt", hdr0, PBytes "AAAA"); ("dup/b.jpg.kpt", hdr0, PHard "./a.jpg.kpt");
+                 ("dup/s.jpg.kpt", hdr0, PSym "a.jpg.kpt"); ("a.jpg.kpt", hdr0, PBytes "BBBB")]
+    = [("a.jpg.kpt", "BBBB"); ("dup/b.jpg.kpt", "AAAA"); ("dup/s.jpg.kpt", "BBBB")] /\
+  images ex_norm ".kpt" true (Some []) (packed_store ex_members []) = [] /\
   match_pairs ex_norm ".matches" ".overlapping" true (Some ["a.jpg"; "b/c.jpg"])
     (packed_store [("a.jpg.overlapping/b/c.jpg.matches", "m"); ("a.jpg.overlapping/zz.jpg.matches", "m")] [])
     = [("a.jpg", "b/c.jpg")].
